@@ -48,6 +48,28 @@ theorem names_sorted (names : List PyStr) :
   exact pySorted_sorted _
 
 open Wp.PdfNames in
+/-- **names_strictly_sorted**: `resolve_links` keeps one anchor per name, so the names given are pairwise distinct; for
+every such list of names (Unicode scalar values: what `str.encode` accepts) the keys of the `/Dests` name array are
+pairwise distinct too — `pydyf.String` never writes two names as the same bytes, whether as text or as `FE FF` +
+UTF-16BE with surrogate pairs — and *strictly* increasing in byte order: a reader bisecting the name tree finds every
+anchor, and exactly one entry for it. -/
+theorem names_strictly_sorted (names : List PyStr) (hv : names.all validStr = true) (hd : names.Nodup) :
+    sortedBy lexLt (destKeys names) = true := by
+  apply sortedBy_strict _ (names_sorted names).2
+  unfold destKeys
+  have hperm := (names_sorted names).1
+  have hnd : (destOrder names).Nodup := hperm.nodup_iff.mpr hd
+  have hval : ∀ x ∈ destOrder names, validStr x = true := fun x hx =>
+    List.all_eq_true.mp hv x (hperm.mem_iff.mp hx)
+  exact map_keyBytes_nodup _ hnd hval
+
+open Wp.PdfNames in
+/-- Non-vacuity: `b`, `aé`, `😀` (a surrogate pair), `a` are distinct valid names. -/
+example : [[98], [97, 233], [0x1F600], [97]].all validStr = true ∧
+    destKeys [[98], [97, 233], [0x1F600], [97]] =
+      [[97], [98], [0xFE, 0xFF, 0, 97, 0, 233], [0xFE, 0xFF, 0xD8, 0x3D, 0xDE, 0x00]] := by decide
+
+open Wp.PdfNames in
 /-- For ASCII names nothing changed: the order is Python's `sorted(pdf_names)` and the keys are the names. -/
 theorem names_sorted_ascii (names : List PyStr) (h : names.all isAscii = true) :
     destOrder names = pySorted names ∧ destKeys names = pySorted names := by
@@ -67,27 +89,34 @@ example : destKeys [[98], [97, 233], [0x20AC], [97]] =
 /-! ## The `/EmbeddedFiles` name array -/
 
 open Wp.PdfNames in
-/-- **embedded_files_sorted_partial**: the `/Names` array of `/EmbeddedFiles` lists exactly the attachments given (a
-permutation), and when no file name holds a byte at or below `)` (blank `!` `"` `#` `$` `%` `&` `'` `(` `)` and control
-characters) nor a backslash, its keys are sorted in the lexical byte order of a name tree (PDF 32000-1 7.9.6).
+/-- **embedded_files_sorted** (full strength since the repair of finding `embedded-files-sorted-by-serialised-key`): for
+*every* list of attachment file names — blanks, parentheses, backslashes, prefixes of one another included — the `/Names`
+array of `/EmbeddedFiles` lists exactly the attachments given (a permutation) and its keys are sorted in the lexical
+byte order of a name tree (PDF 32000-1 7.9.6).  (Equal file names give equal adjacent keys: C18's finding
+`embedded-files-duplicate-keys`.) -/
+theorem embedded_files_sorted (names : List (List Nat)) :
+    (embeddedKeys names).Perm names ∧ sortedBy lexLe (embeddedKeys names) = true := by
+  refine ⟨pySortedBy_perm _ names, ?_⟩
+  have h := map_pySortedBy (fun n => n) names
+  simp only [List.map_id'] at h
+  unfold embeddedKeys
+  rw [h]
+  exact pySorted_sorted _
 
-Full statement (sorted for *all* file names): **false of the current code** — `Witness.embedded_files_unsorted`: the sort
-key is the serialised string `(name)` with its delimiters and escapes, so `a b` sorts before `a` and `a(` after `aA`
-(known finding `embedded-files-sorted-by-serialised-key`). -/
-theorem embedded_files_sorted_partial (names : List (List Nat)) :
-    (embeddedKeys names).Perm names ∧
-    ((∀ n ∈ names, plainName n = true) → sortedBy lexLe (embeddedKeys names) = true) := by
-  refine ⟨pySortedBy_perm litData names, ?_⟩
-  intro hp
+open Wp.PdfNames in
+/-- What held before the repair, kept because it explains the old order: sorting the written forms `(name)` sorts the
+names when no name holds a byte at or below `)` nor a backslash. -/
+theorem written_order_sorted_plain (names : List (List Nat)) (hp : ∀ n ∈ names, plainName n = true) :
+    sortedBy lexLe (embeddedKeysWrittenOrder names) = true := by
   apply sortedBy_of_map_litData
   · intro x hx
     exact hp x ((pySortedBy_perm litData names).mem_iff.mp hx)
-  · unfold embeddedKeys
+  · unfold embeddedKeysWrittenOrder
     rw [map_pySortedBy]
     exact pySorted_sorted _
 
 open Wp.PdfNames in
-/-- Non-vacuity: `b.txt`, `a.txt`, `a-1.txt` are plain names; the keys come out sorted. -/
+/-- Non-vacuity: `b.txt`, `a.txt`, `a-1.txt`; the keys come out sorted. -/
 example : (∀ n ∈ [[98, 46, 116, 120, 116], [97, 46, 116, 120, 116], [97, 45, 49, 46, 116, 120, 116]],
       plainName n = true) ∧
     embeddedKeys [[98, 46, 116, 120, 116], [97, 46, 116, 120, 116], [97, 45, 49, 46, 116, 120, 116]] =
